@@ -75,7 +75,7 @@ type TxnHist struct {
 	UsedAggressive  bool // the transaction used aggressive (fair) locking stages
 	// Asserted: key -> assertion flag put on the buffered key before Commit (Prog.Asserts restricted to the buffer)
 	Asserted map[string]string
-	Done            bool
+	Done     bool
 }
 
 // World is everything that exists in one run.
@@ -249,6 +249,10 @@ func newWorld(s *simkit.Sim, sc *Scenario) (*World, error) {
 	}
 	nclients := sc.Clients + 1 // the last one is the janitor / observer client
 	for i := 0; i < nclients; i++ {
+		// every client is born at its own instant: the periodic background loops of two clients (equal periods) would
+		// otherwise tick at the same simulated instants for the whole run, and the order in which the runtime serves two
+		// timers of one instant is not something the simulator decides
+		time.Sleep(time.Duration(173+37*i) * time.Microsecond)
 		pdc := simkit.NewPD(s, w.Net, i, w.TSO, mocktikv.NewPDClient(cluster))
 		st, err := tikv.NewTestTiKVStore(w.Net.NewConn(i), pdc, nil, nil, 0)
 		if err != nil {
@@ -326,6 +330,7 @@ func copyBuf(m map[string]*string) map[string]*string {
 func (w *World) runTxn(p *TxnProg, h *TxnHist) {
 	defer func() { h.Done = true }()
 	s := w.Sim
+	defer func() { simkit.EvLog("%d actor %d done (end %s err %q)", s.Now(), p.ID, h.EndKind, h.CommitErr) }()
 	// distinct sub-millisecond offsets: no two actors act at the same simulated instant,
 	// so the order in which they reach the TSO / the transport is decided by the clock, not by the Go scheduler.
 	time.Sleep(time.Duration(p.DelayMs)*time.Millisecond + time.Duration(p.ID+1)*13*time.Microsecond)
